@@ -15,7 +15,8 @@ RULE = ("alphabet of 13 commands (define, assign, read, define+call a function r
         "expression, multi-statement call failing midway, syntax error, require of a good stateful module, of a missing, "
         "a broken-at-runtime, a broken-syntax and a circular module, loop aborted by an error after updating an "
         "accumulator); all histories of length <= 3 (quick) / <= 4 (thorough) on one interpreter, all histories <= 2 / "
-        "<= 3 over two interleaved interpreters (26 symbols), random histories to length 30; each followed by a fixed "
+        "<= 3 over two interleaved interpreters (26 symbols), all histories <= 2 with one caller-supplied environment passed "
+        "to every call, random histories to length 30; each followed by a fixed "
         "probe sequence; a case is one history; non-trivial = it contains a failing command followed by another command; "
         "distinct by history")
 ASSUMPTIONS = [
@@ -136,8 +137,11 @@ class Model:
 
 
 class Session:
-    def __init__(self, moddir):
+    def __init__(self, moddir, caller_env=False):
         import ckl.values as V
+        import ckl.functions
+        # caller_env: the host passes one environment of its own to every interpret call
+        self.caller_env = ckl.functions.Environment() if caller_env else None
         self.it, self.out = core.new_interpreter(secure=True, legacy=False)
         mp = V.ValueList()
         mp.addItem(V.ValueString(moddir))
@@ -145,7 +149,10 @@ class Session:
         self.it.base_environment.put("LOADLOG", V.ValueList())
 
     def call(self, src):
-        o = observe(lambda: self.it.interpret(src, "session"), 600000)
+        if self.caller_env is not None:
+            o = observe(lambda: self.it.interpret(src, "session", self.caller_env), 600000)
+        else:
+            o = observe(lambda: self.it.interpret(src, "session"), 600000)
         if o.kind == "value":
             return ("value", core.safe_str(o.value, 200))
         if o.kind == "rte":
@@ -168,9 +175,9 @@ def residue_kind(name):
             "syntax": "syntax-error"}.get(name, "none")
 
 
-def run_history(ctx, moddir, hist, two=False):
+def run_history(ctx, moddir, hist, two=False, caller_env=False):
     """hist: list of (interpreter index, command index)"""
-    sessions = [Session(moddir) for _ in range(2 if two else 1)]
+    sessions = [Session(moddir, caller_env) for _ in range(2 if two else 1)]
     models = [Model() for _ in sessions]
     prev_fail = "none"
     ctx.count("histories")
@@ -182,7 +189,7 @@ def run_history(ctx, moddir, hist, two=False):
         want = models[si].run(name)
         ctx.count("calls")
         if got != want:
-            ctx.violation("C10:%s:after-%s" % (name, prev_fail),
+            ctx.violation("C10:%s%s:after-%s" % ("caller-env:" if caller_env else "", name, prev_fail),
                           "history %s, step %d (interpreter %d): `%s` -> %r, session model says %r" % (
                               [(s, COMMANDS[c][0]) for s, c in hist], step, si, src, got, want), {"history": hist})
             return
@@ -194,7 +201,7 @@ def run_history(ctx, moddir, hist, two=False):
             want = m.probe(p)
             ctx.count("probes")
             if got != want:
-                ctx.violation("C10:probe:%s:after-%s" % (p.split("(")[0].split("-")[0], prev_fail),
+                ctx.violation("C10:%sprobe:%s:after-%s" % ("caller-env:" if caller_env else "", p.split("(")[0].split("-")[0], prev_fail),
                               "history %s: probe `%s` on interpreter %d -> %r, session model says %r" % (
                                   [(s_, COMMANDS[c][0]) for s_, c in hist], p, si, got, want), {"history": hist})
                 return
@@ -226,6 +233,9 @@ def run_shard(spec, ctx):
                 if idx % spec["of"] != spec["part"]:
                     continue
                 run_history(ctx, moddir, [(0, c) for c in h])
+                if L <= 2:
+                    run_history(ctx, moddir, [(0, c) for c in h], caller_env=True)
+                    ctx.count("caller_env_histories")
                 done += 1
         ctx.extras["one_done"] = done
         ctx.extras["one_total"] = sum(n ** L for L in range(1, spec["maxlen"] + 1))
@@ -249,7 +259,7 @@ def run_shard(spec, ctx):
             two = r.random() < 0.5
             L = r.randint(5, 30)
             h = [(r.randrange(2) if two else 0, r.randrange(n)) for _ in range(L)]
-            run_history(ctx, moddir, h, two=two)
+            run_history(ctx, moddir, h, two=two, caller_env=r.random() < 0.3)
             ctx.count("random_histories")
 
 
